@@ -280,6 +280,15 @@ theorem runUp_fuel_enough (b : Backend) (cfg : Cfg) (hs : UpSound b cfg) (c : Na
     (fun st h => upAttempt_none b cfg hs c hc data old _ (upDigest_ok b data) st h)
     plan fuel 1 0 _ (uinv_start data old) (fun _ _ _ _ _ => trivial) hfuel
 
+theorem runUp_attempts_le (b : Backend) (cfg : Cfg) (hs : UpSound b cfg) (c : Nat) (hc : 0 < c) (data : Bytes) (old : Option Bytes)
+    (plan : List Fault) (fuel : Nat) :
+    (runUp b cfg c fuel plan data 0 data.length old).attempts ≤ plan.length + 1 := by
+  rw [runUp_eq b cfg hs]
+  exact loop_attempts_le _ (upPolicy b cfg) (·.visible) (UInv data old) (UGood data) (ErrClass b cfg (fun _ => True)) (StatusIn (fun _ => True))
+    (upAttempt_spec b cfg hs c hc data old _ (upDigest_ok b data) _)
+    (fun st h => upAttempt_none b cfg hs c hc data old _ (upDigest_ok b data) st h)
+    plan fuel 1 0 _ (uinv_start data old) (fun _ _ _ _ _ => trivial)
+
 theorem runUp_bounded_reauth (b : Backend) (cfg : Cfg) (hm : cfg.maxTries = some cfg.budget) (hb : 1 ≤ cfg.budget) (l : Nat)
     (hl : cfg.reauthLimit = some l) (c fuel : Nat) (plan : List Fault) (data : Bytes) (pos0 declared : Nat) (old : Option Bytes) :
     (runUp b cfg c fuel plan data pos0 declared old).attempts ≤ (l + 1) * cfg.budget := by
@@ -387,6 +396,15 @@ theorem runDown_fuel_enough (b : Backend) (cfg : Cfg) (hs : DownSound cfg) (c : 
     (downAttempt_spec b cfg hs c hc obj _)
     (fun st h => downAttempt_none b cfg hs c hc obj st h)
     plan fuel 1 0 ⟨sink0, 0, file⟩ rfl (fun _ _ _ _ _ => trivial) hfuel
+
+theorem runDown_attempts_le (b : Backend) (cfg : Cfg) (hs : DownSound cfg) (c : Nat) (hc : 0 < c) (obj sink0 : Bytes) (file : Bool)
+    (plan : List Fault) (fuel : Nat) :
+    (runDown b cfg c fuel plan obj sink0 0 file).attempts ≤ plan.length + 1 := by
+  unfold runDown
+  exact loop_attempts_le _ (downPolicy b cfg) (fun k => some k.buf) DInv (DGood obj) (ErrClass b cfg (fun _ => True)) (StatusIn (fun _ => True))
+    (downAttempt_spec b cfg hs c hc obj _)
+    (fun st h => downAttempt_none b cfg hs c hc obj st h)
+    plan fuel 1 0 ⟨sink0, 0, file⟩ rfl (fun _ _ _ _ _ => trivial)
 
 theorem runDown_bounded_reauth (b : Backend) (cfg : Cfg) (hm : cfg.maxTries = some cfg.budget) (hb : 1 ≤ cfg.budget) (l : Nat)
     (hl : cfg.reauthLimit = some l) (c fuel : Nat) (plan : List Fault) (obj sink0 : Bytes) (spos0 : Nat) (file : Bool) :
